@@ -436,9 +436,10 @@ class TObj(T):
     Not embeddable into symbolic containers (use TRec / TAddr for that).
     """
 
-    def __init__(self, cls: str, nullable: bool = False):
+    def __init__(self, cls: str, nullable: bool = False, schema_key: str | None = None):
         self.cls = cls
-        self.name = f"Obj[{cls}]"
+        self.schema_key = schema_key
+        self.name = f"Obj[{cls}{'#' + schema_key if schema_key else ''}]"
 
     def sort(self):
         raise Unsupported(f"{self} cannot be stored in a symbolic container")
@@ -446,11 +447,14 @@ class TObj(T):
     def fresh(self, st, hint):
         from . import contract as C
 
-        schema = C.class_schema(self.cls)
+        schema = C.class_schema(self.schema_key or self.cls)
         o = PyObj(self.cls, {})
+        o.schema_key = self.schema_key
         ref = st.alloc(o)
         for f, t in schema.items():
-            o.fields[f] = t.fresh(st, f"{hint}.{f}")
+            # owner-aware field types (cyclic object graphs, e.g. a back-reference to the owner) define fresh_in(st, hint, owner_ref)
+            fresh_in = getattr(t, "fresh_in", None)
+            o.fields[f] = fresh_in(st, f"{hint}.{f}", ref) if fresh_in is not None else t.fresh(st, f"{hint}.{f}")
         return ref
 
 
@@ -610,8 +614,12 @@ class PyObj(HeapObj):
     def __init__(self, cls: str, fields: dict):
         self.cls, self.fields = cls, fields
 
+    schema_key = None
+
     def clone(self):
-        return PyObj(self.cls, dict(self.fields))
+        c = PyObj(self.cls, dict(self.fields))
+        c.schema_key = self.schema_key
+        return c
 
 
 def forall_pat(vs, body, *patterns):
@@ -769,4 +777,6 @@ def type_of_value(st, v) -> T:
             return TSet(o.k)
         if isinstance(o, ListObj):
             return TList(o.t)
+    if isinstance(v, tuple) and v:
+        return TTuple(*[type_of_value(st, x) for x in v])
     raise Unsupported(f"no type for {v!r}")
